@@ -80,6 +80,18 @@ class AIter:
         return "AIter(obj%d,%d..%d)" % (self.vec, self.pos, self.end)
 
 
+class AZip:
+    """`a.zip(b)` of two exactly modelled slice iterators."""
+    kind = "azip"
+
+    def __init__(self, a, b):
+        self.a = a
+        self.b = b
+
+    def __repr__(self):
+        return "AZip(obj%d,obj%d)" % (self.a, self.b)
+
+
 class LogVec:
     """Append-only sequence whose contents are not tracked: every push is an event.  `n` is the
     number of pushes so far (an ordinal in space ('len', obj id)); `cells` keeps the elements
@@ -156,6 +168,11 @@ class Lib:
         S.append((path(r"^core::slice::<impl \[T\]>::first$"), self.first))
         S.append((path(r"^<std::slice::Iter<'a, T> as std::iter::Iterator>::(all|any)$"), self.slice_iter_all_any))
         S.append((path(r"^<std::slice::Iter(Mut)?<'a, T> as std::iter::Iterator>::for_each$"), self.slice_iter_for_each))
+        S.append((path(r"^std::iter::Iterator::zip$"), self.iter_zip))
+        S.append((path(r"^<std::iter::Zip<A, B> as std::iter::Iterator>::next$"), self.zip_next))
+        S.append((path(r"^<std::iter::Zip<A, B> as std::iter::Iterator>::(all|any)$|^std::iter::Iterator::(all|any)$"), self.zip_all_any))
+        S.append((path(r"^core::str::<impl str>::chars$"), self.str_chars))
+        S.append((path(r"^<std::str::Chars<'a> as std::iter::Iterator>::next$"), self.chars_next))
         S.append((path(r"^std::vec::Vec::<T, A>::remove$"), self.vec_remove))
         S.append((path(r"^std::vec::Vec::<T, A>::swap_remove$"), self.vec_swap_remove))
         S.append((path(r"^std::vec::Vec::<T, A>::insert$"), self.vec_insert))
@@ -303,6 +320,124 @@ class Lib:
         st.heap[iid] = AIter(a.vec, a.pos + 1, a.end)
         st.emit("elem", a.vec, a.pos)
         return mk_some(rty, Ref(("H", a.vec), (("el", a.pos),)))
+
+    def _as_aiter(self, it, st, v):
+        """Object id of an exactly modelled slice iterator given by value, by reference, or as something that converts into
+        one (`&Vec<T>` / `&[T]` passed where an IntoIterator is expected)."""
+        for _ in range(3):
+            if isinstance(v, Obj):
+                m = st.heap.get(v.id)
+                if isinstance(m, AIter):
+                    return v.id
+                if isinstance(m, AVec):
+                    return st.new_obj(AIter(v.id, 0, len(m.items))).id
+                return None
+            if isinstance(v, Ref):
+                if v.base[0] == "H" and not v.proj and isinstance(st.heap.get(v.base[1]), AVec):
+                    m = st.heap[v.base[1]]
+                    return st.new_obj(AIter(v.base[1], 0, len(m.items))).id
+                try:
+                    v = it.read_path(st, v.base, v.proj)
+                except Exception:  # noqa
+                    return None
+            else:
+                return None
+        return None
+
+    def iter_zip(self, it, st, inst, args, call):
+        a = self._as_aiter(it, st, args[0])
+        b = self._as_aiter(it, st, args[1])
+        if a is None or b is None:
+            return NotImplemented
+        return st.new_obj(AZip(a, b))
+
+    def _azip(self, it, st, v):
+        for _ in range(3):
+            if isinstance(v, Obj) and isinstance(st.heap.get(v.id), AZip):
+                return st.heap[v.id]
+            if isinstance(v, Ref):
+                try:
+                    v = it.read_path(st, v.base, v.proj)
+                except Exception:  # noqa
+                    return None
+            else:
+                return None
+        return None
+
+    def _zip_step(self, st, z):
+        a, b = st.heap[z.a], st.heap[z.b]
+        if a.pos >= a.end or b.pos >= b.end:
+            return None
+        st.heap[z.a] = AIter(a.vec, a.pos + 1, a.end, a.role)
+        st.heap[z.b] = AIter(b.vec, b.pos + 1, b.end, b.role)
+        return Agg(None, 0, (Ref(("H", a.vec), (("el", a.pos),)), Ref(("H", b.vec), (("el", b.pos),))))
+
+    def zip_next(self, it, st, inst, args, call):
+        z = self._azip(it, st, args[0])
+        if z is None:
+            return NotImplemented
+        rty = ret_ty(it, call)
+        pair = self._zip_step(st, z)
+        return mk_none(rty) if pair is None else mk_some(rty, pair)
+
+    def zip_all_any(self, it, st, inst, args, call):
+        from .absint import CallThen
+        z = self._azip(it, st, args[0])
+        if z is None:
+            return NotImplemented
+        is_all = inst["path"].endswith("::all")
+        body = None
+        for a_ in inst.get("args", []):
+            t = it.p.types[a_]
+            if t["k"] == "closure":
+                c = [i_["id"] for i_ in it.p.inst if i_.get("def_kind") == "Closure" and i_.get("has_mir") and i_["path"] == t.get("name")]
+                if len(c) == 1:
+                    body = c[0]
+        if body is None:
+            raise Undecided("cannot identify the closure passed to %s" % inst["name"][:80])
+        fcell = st.new_obj(args[1])
+
+        def step(it_, st_):
+            pair = self._zip_step(st_, z)
+            if pair is None:
+                return TRUE if is_all else FALSE
+
+            def then(it2, st2, rv):
+                if not isinstance(rv, Conc):
+                    raise Undecided("closure of %s returned %r" % ("all" if is_all else "any", rv))
+                if is_all and rv.v == 0:
+                    return FALSE
+                if not is_all and rv.v == 1:
+                    return TRUE
+                return step(it2, st2)
+
+            return CallThen(body, [Ref(("H", fcell.id), ()), pair], then)
+
+        return step(it, st)
+
+    def str_chars(self, it, st, inst, args, call):
+        """`s.chars()` of a string constant: an exact iterator over its characters."""
+        v = args[0]
+        for _ in range(3):
+            if isinstance(v, Ref):
+                try:
+                    v = it.read_path(st, v.base, v.proj)
+                except Exception:  # noqa
+                    return NotImplemented
+        if not (isinstance(v, Str) and isinstance(v.s, str)):
+            return NotImplemented
+        vec = st.new_obj(AVec(tuple(Conc(ord(c)) for c in v.s), "chars"))
+        return st.new_obj(AIter(vec.id, 0, len(v.s), "chars"))
+
+    def chars_next(self, it, st, inst, args, call):
+        iid, a = self._aiter(it, st, args[0])
+        if a is None or a.role != "chars":
+            return NotImplemented
+        rty = ret_ty(it, call)
+        if a.pos >= a.end:
+            return mk_none(rty)
+        st.heap[iid] = AIter(a.vec, a.pos + 1, a.end, "chars")
+        return mk_some(rty, st.heap[a.vec].items[a.pos])
 
     def slice_iter_for_each(self, it, st, inst, args, call):
         """`iter.for_each(f)` over an exactly modelled slice iterator (taken by value): the closure body is interpreted once
@@ -670,6 +805,9 @@ class FmtLib:
         S.append((name(r"^<str as std::fmt::Display>::fmt$"), self.str_fmt))
         S.append((path(r"^std::fmt::Arguments::<'a>::from_str$"), self.args_from_str))
         S.append((path(r"^std::fmt::Formatter::<'a>::write_fmt$"), self.write_fmt))
+        S.append((path(r"^std::iter::Iterator::zip$"), self.iter_zip))
+        S.append((path(r"^<std::iter::Zip<A, B> as std::iter::Iterator>::next$"), self.zip_next))
+        S.append((path(r"^<std::iter::Zip<A, B> as std::iter::Iterator>::(all|any)$|^std::iter::Iterator::(all|any)$"), self.zip_all_any))
         S.append((path(r"^core::str::<impl str>::chars$"), self.str_chars))
 
     def ok(self, it, call):
@@ -700,6 +838,100 @@ class FmtLib:
             return self.ok(it, call)
         st.emit("wfmt", a)
         return self.ok(it, call)
+
+    def _as_aiter(self, it, st, v):
+        """Object id of an exactly modelled slice iterator given by value, by reference, or as something that converts into
+        one (`&Vec<T>` / `&[T]` passed where an IntoIterator is expected)."""
+        for _ in range(3):
+            if isinstance(v, Obj):
+                m = st.heap.get(v.id)
+                if isinstance(m, AIter):
+                    return v.id
+                if isinstance(m, AVec):
+                    return st.new_obj(AIter(v.id, 0, len(m.items))).id
+                return None
+            if isinstance(v, Ref):
+                if v.base[0] == "H" and not v.proj and isinstance(st.heap.get(v.base[1]), AVec):
+                    m = st.heap[v.base[1]]
+                    return st.new_obj(AIter(v.base[1], 0, len(m.items))).id
+                try:
+                    v = it.read_path(st, v.base, v.proj)
+                except Exception:  # noqa
+                    return None
+            else:
+                return None
+        return None
+
+    def iter_zip(self, it, st, inst, args, call):
+        a = self._as_aiter(it, st, args[0])
+        b = self._as_aiter(it, st, args[1])
+        if a is None or b is None:
+            return NotImplemented
+        return st.new_obj(AZip(a, b))
+
+    def _azip(self, it, st, v):
+        for _ in range(3):
+            if isinstance(v, Obj) and isinstance(st.heap.get(v.id), AZip):
+                return st.heap[v.id]
+            if isinstance(v, Ref):
+                try:
+                    v = it.read_path(st, v.base, v.proj)
+                except Exception:  # noqa
+                    return None
+            else:
+                return None
+        return None
+
+    def _zip_step(self, st, z):
+        a, b = st.heap[z.a], st.heap[z.b]
+        if a.pos >= a.end or b.pos >= b.end:
+            return None
+        st.heap[z.a] = AIter(a.vec, a.pos + 1, a.end, a.role)
+        st.heap[z.b] = AIter(b.vec, b.pos + 1, b.end, b.role)
+        return Agg(None, 0, (Ref(("H", a.vec), (("el", a.pos),)), Ref(("H", b.vec), (("el", b.pos),))))
+
+    def zip_next(self, it, st, inst, args, call):
+        z = self._azip(it, st, args[0])
+        if z is None:
+            return NotImplemented
+        rty = ret_ty(it, call)
+        pair = self._zip_step(st, z)
+        return mk_none(rty) if pair is None else mk_some(rty, pair)
+
+    def zip_all_any(self, it, st, inst, args, call):
+        from .absint import CallThen
+        z = self._azip(it, st, args[0])
+        if z is None:
+            return NotImplemented
+        is_all = inst["path"].endswith("::all")
+        body = None
+        for a_ in inst.get("args", []):
+            t = it.p.types[a_]
+            if t["k"] == "closure":
+                c = [i_["id"] for i_ in it.p.inst if i_.get("def_kind") == "Closure" and i_.get("has_mir") and i_["path"] == t.get("name")]
+                if len(c) == 1:
+                    body = c[0]
+        if body is None:
+            raise Undecided("cannot identify the closure passed to %s" % inst["name"][:80])
+        fcell = st.new_obj(args[1])
+
+        def step(it_, st_):
+            pair = self._zip_step(st_, z)
+            if pair is None:
+                return TRUE if is_all else FALSE
+
+            def then(it2, st2, rv):
+                if not isinstance(rv, Conc):
+                    raise Undecided("closure of %s returned %r" % ("all" if is_all else "any", rv))
+                if is_all and rv.v == 0:
+                    return FALSE
+                if not is_all and rv.v == 1:
+                    return TRUE
+                return step(it2, st2)
+
+            return CallThen(body, [Ref(("H", fcell.id), ()), pair], then)
+
+        return step(it, st)
 
     def str_chars(self, it, st, inst, args, call):
         return Top(ret_ty(it, call), "chars")
